@@ -196,10 +196,9 @@ func toPropertyDescriptor(rt *runtime, value Value) property {
 
 func (rt *runtime) fromPropertyDescriptor(descriptor property) *object {
 	obj := rt.newObject()
-	if descriptor.isDataDescriptor() {
-		obj.defineProperty("value", descriptor.value.(Value), 0o111, false)
-		obj.defineProperty("writable", boolValue(descriptor.writable()), 0o111, false)
-	} else if descriptor.isAccessorDescriptor() {
+	// Accessor first: built-in accessors (function "caller", error "stack")
+	// are defined with the write bits set, which isDataDescriptor accepts.
+	if descriptor.isAccessorDescriptor() {
 		getSet := descriptor.value.(propertyGetSet)
 		get := Value{}
 		if getSet[0] != nil {
@@ -211,6 +210,9 @@ func (rt *runtime) fromPropertyDescriptor(descriptor property) *object {
 		}
 		obj.defineProperty("get", get, 0o111, false)
 		obj.defineProperty("set", set, 0o111, false)
+	} else if descriptor.isDataDescriptor() {
+		obj.defineProperty("value", descriptor.value.(Value), 0o111, false)
+		obj.defineProperty("writable", boolValue(descriptor.writable()), 0o111, false)
 	}
 	obj.defineProperty("enumerable", boolValue(descriptor.enumerable()), 0o111, false)
 	obj.defineProperty("configurable", boolValue(descriptor.configurable()), 0o111, false)
